@@ -19,6 +19,7 @@ import inspect
 import json
 import os
 import sys
+import time
 import traceback
 
 import numpy as np
@@ -1059,28 +1060,18 @@ def has_placeholder(o):
 
 
 def run_case(pool, label, kind, mname, variant, direction, F0):
-    """direction 'A': operate on the copy, watch the source (the pool object);
-       direction 'B': operate on the source, watch the copy;
+    """direction 'M': x = source.copy(); y = x.copy(); operate on x (and scribble
+       over whatever it returns); neither the source of x (the pool object) nor
+       the copy y of x may change.
        direction 'P': in-place protocol (only for methods with `inplace`)."""
     x0 = pool[label]
     row = {"label": label, "cls": type(x0).__name__, "kind": kind, "m": mname, "v": variant, "dir": direction}
+    if direction == "P":
+        return run_protocol_case(pool, row, x0, kind, mname, variant, F0)
     try:
-        if direction == "A":
-            x = x0
-            y = x.copy()
-            args, kw = build_call(y, kind, mname, variant)
-            target, watched = y, x
-        elif direction == "B":
-            x = x0.copy()
-            y = x.copy()
-            args, kw = build_call(x, kind, mname, variant)
-            target, watched = x, y
-            F0w = fp(y)
-            kf, df = compare(F0, F0w)
-            if kf == "public":
-                row["copy_of_copy_differs"] = df
-        else:
-            return run_protocol_case(pool, row, x0, kind, mname, variant, F0)
+        x = x0.copy()
+        y = x.copy()
+        args, kw = build_call(x, kind, mname, variant)
     except Skip as s:
         row["skip"] = str(s)
         return row
@@ -1088,8 +1079,12 @@ def run_case(pool, label, kind, mname, variant, direction, F0):
         row["skip"] = "argument synthesis failed: " + errname(e)
         return row
     row["kw"] = sorted(kw)
+    Fy0 = fp(y)
+    kf, df = compare(F0, Fy0)
+    if kf == "public":
+        row["copy_of_copy_differs"] = df
     try:
-        r = invoke(target, kind, mname, args, kw)
+        r = invoke(x, kind, mname, args, kw)
         row["outcome"] = "ok"
     except Exception as e:
         r = None
@@ -1099,18 +1094,16 @@ def run_case(pool, label, kind, mname, variant, direction, F0):
         row["scribbles"] = scribble(r)
     except Exception as e:
         row["scribbles"] = -1
-    F1 = fp(watched)
-    kindd, det = compare(F0 if direction == "A" else F0w, F1)
+    Fy1 = fp(y)
+    kindd, det = compare(Fy0, Fy1)
     if kindd:
-        row["changed"] = kindd
+        row["changed"] = kindd          # the copy noticed an operation on its source
         row["diff"] = det
-    if direction == "B":
-        # the pool object is two copies away from the operated object
-        F2 = fp(x0)
-        k2, d2 = compare(F0, F2)
-        if k2:
-            row["pool_changed"] = k2
-            row["pool_diff"] = d2
+    F2 = fp(x0)
+    k2, d2 = compare(F0, F2)
+    if k2:
+        row["pool_changed"] = k2        # the source noticed an operation on its copy
+        row["pool_diff"] = d2
     return row
 
 
@@ -1123,6 +1116,10 @@ def run_protocol_case(pool, row, x0, kind, mname, variant, F0):
     except Skip as s:
         row["skip"] = str(s)
         return row
+    except Exception as e:
+        row["skip"] = "argument synthesis failed: " + errname(e)
+        return row
+    Fx0 = fp(x)
     kw.pop("inplace", None)
     row["kw"] = sorted(kw)
     # variant 2: provoke an error after the wrapper has started (unknown keyword)
@@ -1136,7 +1133,7 @@ def run_protocol_case(pool, row, x0, kind, mname, variant, F0):
         row["outcome"] = errname(e)
         row["msg"] = str(e)[:160]
     F1 = fp(x)
-    k, d = compare(F0, F1)
+    k, d = compare(Fx0, F1)
     if k:
         row["changed"] = k
         row["diff"] = d
@@ -1201,6 +1198,8 @@ def do_sweep(payload):
             print(json.dumps({"label": label, "fp_error": errname(e) + ": " + str(e)[:200]}), flush=True)
             continue
         k, d = compare(F0, Fc)
+        if k == "hidden":
+            k = None   # private state may legitimately differ (ignored construct types of a view)
         print(json.dumps({"label": label, "cls": type(x0).__name__, "copyfid": k, "diff": d,
                           "stable": compare(F0, fp(x0))[0] is None}), flush=True)
         for kind, mname in operations(type(x0)):
@@ -1215,15 +1214,16 @@ def do_sweep(payload):
                                   "skip": "class-level constructor: no receiver"}), flush=True)
                 continue
             for variant in variants:
-                dirs = ["A", "B"]
-                for direction in dirs:
+                for direction in ["M"]:
+                    t0 = time.time()
                     try:
                         row = run_case(pool, label, kind, mname, variant, direction, F0)
+                        row["t"] = round(time.time() - t0, 3)
                     except Exception as e:
                         row = {"label": label, "kind": kind, "m": mname, "v": variant, "dir": direction,
                                "harness_error": errname(e) + ": " + traceback.format_exc()[-400:]}
                     print(json.dumps(row, default=str), flush=True)
-                    if row.get("pool_changed") or (direction == "A" and row.get("changed")):
+                    if row.get("pool_changed"):
                         # the pool object itself was damaged: rebuild it
                         pool = build_pool(payload.get("scratch"))
                         x0 = pool[label]
@@ -1269,8 +1269,95 @@ def main():
         raise SystemExit("unknown mode")
 
 
-def do_graph(payload):  # defined below (kept last: depends on everything above)
-    raise SystemExit("graph mode not built yet")
+def tok(s):
+    s = "".join(ch if (32 <= ord(ch) < 127 and ch not in '"\\') else "?" for ch in str(s))
+    return s if len(s) <= 24 else s[:10] + "#" + _h(s.encode())[:8]
+
+
+class Grapher:
+    """Object graph -> tree with addresses (Model.obj).  One instance numbers
+    the cells of several roots consistently (same Python object, same address)."""
+
+    def __init__(self):
+        self.ids = {}
+        self.keep = []
+
+    def addr(self, o):
+        k = id(o)
+        if k not in self.ids:
+            self.ids[k] = len(self.ids)
+            self.keep.append(o)
+        return self.ids[k]
+
+    def tree(self, o, onpath=None, depth=0):
+        onpath = onpath or set()
+        if isinstance(o, SIMPLE):
+            return {"i": tok(type(o).__name__ + ":" + repr(o))}
+        if isinstance(o, np.generic):
+            return {"i": tok("np:" + repr(o.item()))}
+        if isinstance(o, np.ndarray):
+            return {"b": self.addr(o), "c": int(_h(json.dumps(arr_token(o)).encode())[:7], 16)}
+        if id(o) in onpath or depth > 40:
+            return {"i": "<cycle>"}
+        onpath = onpath | {id(o)}
+        if isinstance(o, dict):
+            kids = [[tok(repr(k)), self.tree(v, onpath, depth + 1)] for k, v in o.items()]
+            return {"n": self.addr(o), "cls": "dict", "k": sorted(kids, key=lambda p: p[0])}
+        if isinstance(o, list):
+            return {"n": self.addr(o), "cls": "list",
+                    "k": [["%03d" % i, self.tree(v, onpath, depth + 1)] for i, v in enumerate(o)]}
+        if isinstance(o, tuple):
+            kids = [self.tree(v, onpath, depth + 1) for v in o]
+            if all("i" in k for k in kids):
+                return {"i": tok("tuple:" + repr([k["i"] for k in kids]))}
+            return {"n": self.addr(o), "cls": "tuple", "k": [["%03d" % i, k] for i, k in enumerate(kids)]}
+        if isinstance(o, (set, frozenset)):
+            return {"n": self.addr(o), "cls": "set", "k": [["items", {"i": tok(repr(sorted(repr(e) for e in o)))}]]}
+        if is_container_obj(o):
+            kids = []
+            for k in sorted(vars(o)):
+                if is_cache_attr(type(o), k):
+                    continue
+                kids.append([tok(k), self.tree(vars(o)[k], onpath, depth + 1)])
+            return {"n": self.addr(o), "cls": type(o).__name__, "k": kids}
+        return {"i": tok("<" + type(o).__name__ + ">")}
+
+
+def do_graph(payload):
+    pool = build_pool(payload.get("scratch"))
+    for label in payload["labels"]:
+        if label not in pool:
+            continue
+        x = pool[label]
+        for how in payload.get("how", ["copy"]):
+            g = Grapher()
+            try:
+                tx = g.tree(x)
+                n = len(g.ids)
+                y = x.copy() if how == "copy" else pycopy.deepcopy(x)
+                ty = g.tree(y)
+                # every numpy buffer of y against every buffer of x: memory overlap
+                bx = [o for o in g.keep[:n] if isinstance(o, np.ndarray)]
+                by = [o for o in g.keep[n:] if isinstance(o, np.ndarray)]
+                overlap = sum(1 for a in bx for b in by if np.shares_memory(a, b))
+                print(json.dumps({"label": label, "cls": type(x).__name__, "how": how, "n": n, "x": tx, "y": ty,
+                                  "fresh_buffers_overlapping_source": overlap}), flush=True)
+            except Exception as e:
+                print(json.dumps({"label": label, "how": how, "graph_error": errname(e) + ": " + str(e)[:200]}), flush=True)
+        if payload.get("set_data") and hasattr(x, "set_data") and not isinstance(x, cfdm.core.Data):
+            try:
+                sig = inspect.signature(type(x).set_data)
+                if "inplace" in sig.parameters and x.has_data():
+                    g = Grapher()
+                    tx = g.tree(x)
+                    n = len(g.ids)
+                    d = _data_like(x, 0)
+                    r = x.set_data(d, inplace=False)
+                    tr_ = g.tree(r)
+                    print(json.dumps({"label": label, "cls": type(x).__name__, "how": "set_data", "n": n,
+                                      "x": tx, "y": tr_}), flush=True)
+            except Exception as e:
+                print(json.dumps({"label": label, "how": "set_data", "graph_error": errname(e) + ": " + str(e)[:200]}), flush=True)
 
 
 def do_protocol(payload):
